@@ -122,6 +122,15 @@ def run(tier, seed):
     finally:
         api.REGISTRY.clear()
         api.REGISTRY.update(saved)
+    # "devices see the inputs of the latest response, the outputs they set are
+    # sent in the next frame": the devices' accessors follow the group's
+    # CURRENT frame buffer, also after it was replaced (a new start(); C19's
+    # history contracts of PacketVar.get / set, re-proved here)
+    from contracts import c19_procvar as S19
+    from ebpfcat.ethercat import SyncManager
+    from props import c19
+    for c in S19.history_contracts("h", SyncManager.OUT) + S19.history_contracts(4, SyncManager.IN):
+        api.verify(c, rep, quiet=True, replay=lambda n, i, nt, c=c: c19.native_py(c, n, i, nt))
     rep.bound("SyncGroupBase.run: the frames of the first three cycles, every combination of response and timeout "
               "(loop unrolled; update_devices and the bus by contract)")
     return rep.finish(
